@@ -3,7 +3,9 @@
 (* checked by TLC against brute-force quadratic residuosity for every safe     *)
 (* prime below a bound (the rule depends on p only through p mod 4g);          *)
 (* (b) the g_a / g_b range check of CheckDHParams over symbolic values         *)
-(* anchor + delta, anchors ordered 1 < 2^1984 < mid < p - 2^1984 < p - 1;      *)
+(* anchor + delta, anchors ordered 1 < 2^1984 < mid < p - 2^1984 < p - 1 < p   *)
+(* < p + 2^1984 < p + mid < 2p < 2^2048 - 1 < 2^2056 (values at or above the    *)
+(* modulus are out of range however they reduce mod p);                        *)
 (* (c) CheckDH prime classes; (d) factorization of semiprimes from a table.    *)
 EXTENDS Integers, FiniteSets, Sequences, TLC, Json
 
@@ -29,13 +31,13 @@ GpCases == { [cls |-> "gp", in |-> [kind |-> "gp", g |-> g, p |-> p], expect |->
              : g \in 0..9, p \in IF Thorough THEN SafePrimes ELSE {q \in SafePrimes : q < 600} }
 
 \* range check: value = anchor + delta
-Anchors == {"one", "lo", "mid", "hi", "pm1"}
+Anchors == {"one", "lo", "mid", "hi", "pm1", "p", "p_lo", "p_mid", "twop", "max2048", "over2048"}
 Deltas == {-2, -1, 0, 1, 2}
 InSafe(a, d) == (a = "lo" /\ d > 0) \/ (a = "hi" /\ d < 0) \/ a = "mid"
 RangeCases == { [cls |-> "range", in |-> [kind |-> "range", who |-> w, anchor |-> a, delta |-> d],
                  expect |-> [accept |-> InSafe(a, d)]] : w \in {"ga", "gb"}, a \in Anchors, d \in Deltas }
 GCases == { [cls |-> "grange", in |-> [kind |-> "grange", anchor |-> a, delta |-> d],
-             expect |-> [accept |-> ((a = "one" /\ d > 0) \/ (a = "pm1" /\ d < 0) \/ a \in {"lo", "mid", "hi"})]]
+             expect |-> [accept |-> ((a = "one" /\ d > 0) \/ (a = "pm1" /\ d < 0) \/ (a = "p" /\ d < -1) \/ a \in {"lo", "mid", "hi"})]]
             : a \in Anchors, d \in Deltas }
 
 \* CheckDH: 2048-bit safe prime with an admissible generator.  The documented 2048-bit production prime has
